@@ -288,4 +288,32 @@ theorem pickleBackend_truthful (fs : FS) : (pickleBackend true).truthfulAt fs :=
   cases p <;> cases q <;> cases pt <;> cases ct <;>
     simp [pickleBackend, Backend.truthfulAt, hasSaved, hasLeftover, FS.noFiles]
 
+/-! ### names that differ by a dotted tail -/
+
+theorem nstep_append (tc : TCfg) (w : TWorld) (x : Name × Op) :
+    (nstep tc .append w x.1 x.2).1 = (tstep tc w (nameOp x)).1 := by
+  obtain ⟨n, op⟩ := x
+  cases n <;> simp [nstep, nameOp, resolve, tstep]
+
+theorem nrun_append (tc : TCfg) (w : TWorld) (ops : List (Name × Op)) :
+    nrun tc .append w ops = trun tc w (ops.map nameOp) := by
+  induction ops generalizing w with
+  | nil => rfl
+  | cons x r ih =>
+    obtain ⟨n, op⟩ := x
+    simp only [nrun, List.map, trun]
+    rw [nstep_append tc w (n, op)]
+    exact ih _
+
+theorem promiseN_append (n : Name) (p : Promise) (ops : List (Name × Op)) :
+    promiseN n p ops = promiseT (resolve .append n) p (ops.map nameOp) := by
+  induction ops generalizing p with
+  | nil => rfl
+  | cons x r ih =>
+    obtain ⟨n', op⟩ := x
+    simp only [promiseN, List.map, promiseT, nameOp, TOp.proj]
+    rw [ih]
+    congr 1
+    cases n <;> cases n' <;> simp [resolve, promise]
+
 end PwVerif.Storage
